@@ -193,6 +193,21 @@ pub fn gen_value(dt: &FieldDataType, n: usize, e: &mut Ent, utf8_only: bool) -> 
             return (f as f64).to_be_bytes().to_vec();
         }
     }
+    if *dt == FieldDataType::Ip6Addr && n == 16 {
+        let s = e.next();
+        if s < 48 {
+            // address forms that text renderings treat specially
+            let (a, b, c, d) = (e.next(), e.next(), e.next(), e.next());
+            return match s % 6 {
+                0 => [&[0u8; 10][..], &[0xff, 0xff, a, b, c, d]].concat(), // IPv4-mapped
+                1 => [&[0u8; 12][..], &[a, b, c, d]].concat(),             // IPv4-compatible
+                2 => [&[0u8; 15][..], &[1]].concat(),                      // loopback
+                3 => [&[0xfe, 0x80][..], &[0u8; 6], &[a, b, c, d, a, b, c, d]].concat(), // link-local
+                4 => [&[0x20, 0x01, 0x0d, 0xb8][..], &[0u8; 4], &[a, 0, 0, 0, 0, 0, 0, d]].concat(), // two zero runs
+                _ => [&[0, 0x64, 0xff, 0x9b][..], &[0u8; 8], &[a, b, c, d]].concat(), // NAT64 prefix
+            };
+        }
+    }
     if *dt == FieldDataType::String && utf8_only {
         return utf8_fill(n, e);
     }
